@@ -112,9 +112,8 @@ func GenTx(t *rapid.T, o ChainOpts) sim.Tx {
 		Status: byte(rapid.IntRange(0, 1).Draw(t, "status")), GasUsed: uint64(rapid.IntRange(21000, 90000).Draw(t, "gasused")),
 		EffGasPrice: nonZeroBig(t, "effgas"),
 	}
-	if rapid.Bool().Draw(t, "type2") {
-		tx.Type = 2
-	}
+	// legacy, access-list, EIP-1559, blob, set-code, and an L2 system type without fee caps
+	tx.Type = rapid.SampledFrom([]byte{0, 0, 1, 2, 2, 2, 3, 4, 0x7e}).Draw(t, "txtype")
 	if rapid.IntRange(0, 9).Draw(t, "create") == 0 {
 		tx.ContractAddr = poolAddr(t, nil, "contract")
 	} else {
